@@ -8,6 +8,9 @@ func SeamAvailable() bool { return false }
 // MapPoints is always 0 without the seam.
 var MapPoints int64
 
+// DefaultRot has no effect without the seam.
+var DefaultRot int
+
 // WithMapOrder just runs f: without the seam the runtime picks map iteration orders at random.
 func WithMapOrder(_ *Ctx, f func()) { f() }
 
